@@ -66,6 +66,9 @@ func (st *State) getHeap(P *Prog, comp, sort string) Term {
 			}
 			st.heap[comp] = t
 		}
+		if st.fx != nil && st.fx.compSort[comp] == "" {
+			st.fx.compSort[comp] = t.Sort
+		}
 		return t
 	}
 	name := st.base + "_" + sanitize(comp)
